@@ -283,6 +283,22 @@ func runC08(r *rt.Run) {
 		})
 		w.States += n
 	})
+	// large documents x option sets within 2 deviations (index thresholds 63/64/65 are crossed by their sizes)
+	large := docgen.LargeDocs()
+	r.Bounds["large_documents"] = len(large)
+	r.ParFor(len(large), func(i int, w *rt.Worker) {
+		w.States++
+		w.Nontriv++
+		for d := 0; d < 2; d++ {
+			for _, os := range near[d] {
+				w.Evals++
+				c08One(large[i], bases[d], os, nil, func(class string, c rt.Case, exp, got string) {
+					c.Doc = fmt.Sprintf("large#%d", i)
+					w.Fail(class+"-large", func() (rt.Case, string, string) { return c, trunc(exp), trunc(got) })
+				})
+			}
+		}
+	})
 	r.Sample(rt.Case{Kind: "doc", Op: "options", Doc: seeds[len(seeds)-1], Cfg: full[0][777].Name, X: map[string]string{"base": bases[0].Name}})
 	r.Sample(rt.Case{Kind: "doc", Op: "options", Doc: `{"type":"MultiPoint","coordinates":[[200,0]]}`, Cfg: near[0][20].Name, X: map[string]string{"base": bases[0].Name}})
 }
